@@ -228,19 +228,31 @@ def _k1_cases(tier):
     cases.append(('|', ('u', 0), ('!', ('u', 1))))
     if tier == 'thorough':
         for it in _int_trees(3):
+            # 3-leaf integer trees: the flat 3-ary ones, and the nested ones that mix && and || with uniformly
+            # negated / non-negated leaves (the full set of 288 costs ~2 h on 16 cores for little extra)
+            body = it[1] if it[0] == '!' else it
+            if len(body) == 4:
+                keep = True
+            else:
+                inner = [x for x in body[1:] if x[0] in '&|' or (x[0] == '!' and x[1][0] in '&|')]
+                inner_body = inner[0][1] if inner[0][0] == '!' else inner[0]
+                leaves_ = [x for x in body[1:] if x is not inner[0]] + list(inner_body[1:])
+                negs = {x[0] == '!' for x in leaves_}
+                keep = (inner_body[0] != body[0]) and len(negs) == 1
+            if not keep:
+                continue
             cases.append(('n', it))
             cases.append(('!', ('n', it)))
         # nested line level, depth 3
         A = [('n', ('c', 0)), ('!', ('n', ('c', 0))), ('u', 0)]
         B = [('n', ('c', 1)), ('!', ('n', ('c', 1)))]
-        C = [('n', ('c', 2)), ('!', ('n', ('c', 2))), ('u', 1), ('k', 0)]
+        C = [('!', ('n', ('c', 2))), ('u', 1)]
         for a_ in A:
             for b_ in B:
                 for c_ in C:
-                    for op1 in '&|':
-                        for op2 in '&|':
-                            cases.append((op1, a_, (op2, b_, c_)))
-                            cases.append(('!', (op1, (op2, a_, b_), c_)))
+                    for op1, op2 in (('&', '|'), ('|', '&')):
+                        cases.append((op1, a_, (op2, b_, c_)))
+                        cases.append(('!', (op1, (op2, a_, b_), c_)))
     # de-duplicate, stable
     seen = set()
     out = []
